@@ -62,8 +62,19 @@ def step (s : St) (op : String) : St × Option String :=
     -- judge: a listing under unfriendly conditions (a failing descriptor read with a slow consumer;
     -- a label deleted by someone else between the key scan and its read) failed, or returned every
     -- label nobody touched with the bundle it was last set to, and nothing else
-    let got := (kvGet (kvs rest) "got").getD ""
-    (s, some (if got == "same" || got == "err" then "sound" else "UNSOUND"))
+    -- For the concurrent deletion the model says which of the two it is (`listLabelsRace`, keys
+    -- scanned before and descriptors fetched after the deletion; `C08_list_race_sound`).
+    let kv := kvs rest
+    let got := (kvGet kv "got").getD ""
+    let ok :=
+      if (kvGet kv "kind") == some "concurrent-delete" then
+        let r := dec kv "r"
+        let s1 := (deleteLabel s r (dec kv "victim")).1
+        match listLabelsRace s s1 r [] with
+        | .labels _ => got == "same"
+        | _ => got == "err"
+      else got == "same" || got == "err"
+    (s, some (if ok then "sound" else "UNSOUND"))
   | "list" :: rest =>
     let kv := kvs rest
     let r := dec kv "r"
